@@ -199,6 +199,7 @@ class CaseTimeout(BaseException):
 def run_shard(args):
     prop_id, sub_name, shard, n, seed, budget = args[:6]
     nshards_total = args[6] if len(args) > 6 else 1
+    opts = args[7] if len(args) > 7 else {}
     t0 = time.time()
     out = {'sub': sub_name, 'shard': shard, 'seed': seed, 'evaluations': 0, 'nt_hashes': [], 'all_hashes': 0,
            'labels': {}, 'discarded': 0, 'excluded_known': {}, 'budget_skipped': 0, 'samples': [], 'timeout_cases': [],
@@ -318,10 +319,17 @@ def run_shard(args):
             out['wall_s'] = time.time() - t0
             return out
         test = given(sub.strategy)(wrapped)
-        test = settings(max_examples=n, database=None, deadline=None, derandomize=False, report_multiple_bugs=False,
-                        suppress_health_check=list(HealthCheck), phases=[Phase.generate, Phase.target, Phase.shrink],
-                        print_blob=False)(test)
-        test = hypothesis.seed(seed)(test)
+        if opts.get('db'):
+            # shrink stage of a coverage-guided campaign (vt/fuzz.py): replay the failing inputs it stored and minimise them
+            from vt.fuzz import FlatDB
+            test = settings(max_examples=max(n, 1), database=FlatDB(opts['db']), deadline=None, derandomize=False, report_multiple_bugs=False,
+                            suppress_health_check=list(HealthCheck), phases=[Phase.reuse, Phase.shrink], print_blob=False)(test)
+        else:
+            test = settings(max_examples=n, database=None, deadline=None, derandomize=False, report_multiple_bugs=False,
+                            suppress_health_check=list(HealthCheck), phases=[Phase.generate, Phase.target, Phase.shrink],
+                            print_blob=False)(test)
+        if not opts.get('db'):
+            test = hypothesis.seed(seed)(test)      # (@seed switches the example database off: not in the shrink stage)
         try:
             test()
         except BaseException as exc:  # noqa
